@@ -27,7 +27,7 @@ ASSUMPTIONS = ["a re-registration on the same token starts a new registration (i
                "registrations still alive, on what the server transmitted (not on what the lossy network delivered)"]
 EXPECTED_PROBES = ["change_during_render", "coalesced_burst", "change_while_in_flight", "end_by_rst", "end_by_new_request", "end_by_deregister",
                    "end_by_timeout", "end_by_icmp", "end_by_senderr", "end_by_error_notification", "end_by_last_notification", "end_by_shutdown",
-                   "non_registration", "several_observers", "rst_on_non_notification", "observers_share_a_host", "sendmsg_failed", "end_event_during_render", "explicit_notification"]
+                   "non_registration", "several_observers", "rst_on_non_notification", "observers_share_a_host", "sendmsg_failed", "end_event_during_render", "explicit_notification", "own_observation_under_observers_token"]
 
 REACTIONS = ["ack", "ack", "ack", "rst", "silent", "rereg", "dereg"]
 
@@ -71,6 +71,11 @@ def gen(r, tier):
             ops.append({"op": "senderr", "t": round(o["t"] + dt, 4), "observer": o["id"], "n": 1, "errno": 101})
     ops.sort(key=lambda o: o["t"])
     # rendering may take time (the resource reads its state, then awaits something): changes can land DURING a render
+    if r.chance(0.2):
+        # both roles: the server context itself observes something at one of its observers, and its request happens to
+        # get the very token that observer registered with (the two directions choose tokens independently)
+        ops.append({"op": "own_observe", "t": round(r.uniform(1.5, t + 1), 4), "observer": r.randrange(nobs)})
+        ops.sort(key=lambda o: o["t"])
     early = any(o["t"] < 1.5 and o["op"] in ("reg", "icmp", "senderr") for o in ops)
     return {"observers": observers, "ops": ops, "net": faults.swarm(r, kinds=("drop", "dup", "delay"), fault_free=0.35),
             "render_delay": r.choice([0.05, 0.05, 0.005]) if early else r.choice([0, 0, 0.0005, 0.005, 0.05]), "same_host": r.chance(0.3)}
@@ -165,6 +170,7 @@ class Observer(ScriptedEndpoint):
         self.srv = srv
         self.token = bytes([0x0B, spec["id"]])
         self.seen_mids = set()
+        self.answered = {}
         self.k = 0
         self.reqs = 0
 
@@ -176,6 +182,14 @@ class Observer(ScriptedEndpoint):
         self.send(self.srv, msg=m)
 
     def handle(self, msg, src, data):
+        if msg is not None and 1 <= msg["code"] < 32:
+            # the server context acting as a client towards this endpoint: answer (once per message ID)
+            if msg["mid"] not in self.answered:
+                self.answered[msg["mid"]] = {"type": rc.ACK if msg["type"] == rc.CON else rc.NON, "code": rc.CONTENT,
+                                             "mid": msg["mid"] if msg["type"] == rc.CON else self.next_mid(),
+                                             "token": msg["token"], "options": [(rc.OBSERVE, b"\x05")], "payload": b"theirs"}
+            self.send(src, msg=self.answered[msg["mid"]])
+            return
         if msg is None or msg["token"] != self.token or not (64 <= msg["code"] < 192):
             return
         if msg["type"] == rc.ACK:
@@ -293,6 +307,12 @@ def execute(sim, scn):
         loop.at(o["t"], observers[o["id"]].register, 0)
         if not o["con"]:
             sim.probe("non_registration")
+    own_requests = []
+    own = [o for o in scn["ops"] if o["op"] == "own_observe"]
+    if own and own[0]["observer"] in observers:
+        # the token the context's first own request will get: counter start (recorded draw) + 1
+        v0 = [d for d in sim.draws["tm"].log if d[0] == "randint"][0][3]
+        observers[own[0]["observer"]].token = ((v0 + 1) % (2 ** 64)).to_bytes(8, "big").lstrip(b"\0")
     global_ends = []  # (t, kind, observer id or None)
     shutdown_done = []
 
@@ -321,6 +341,14 @@ def execute(sim, scn):
         elif k == "senderr":
             if op["observer"] in observers:
                 armed[observers[op["observer"]].addr] = [op["n"], op["errno"]]
+        elif k == "own_observe":
+            if op["observer"] in observers:
+                ob = observers[op["observer"]]
+                sim.probe("own_observation_under_observers_token")
+                req = ctx.request(Message(code=aiocoap.GET, uri="coap://[%s]:%d/other" % ob.addr, observe=0), handle_blockwise=False)
+                own_requests.append(req)
+                req.observation.register_callback(lambda m: None)
+                req.observation.register_errback(lambda e: None)
         elif k == "reg":
             if op["observer"] in observers:
                 if renders and scn.get("render_delay") and loop.now - renders[-1]["t"] < scn["render_delay"]:
